@@ -63,28 +63,37 @@ class SqliteConnection:
         self._opening: asyncio.Event | None = None
 
     async def __aenter__(self) -> aiosqlite.Connection:
-        if not self._connection:
+        while not self._connection:
             if not self._opening:
-                self._opening = asyncio.Event()
-                connection = await aiosqlite.connect(
-                    database=self.connection, timeout=self.timeout
-                )
-                if self.init_db:
-                    async with connection.cursor() as cursor:
-                        await cursor.execute("PRAGMA journal_mode = WAL")
-                        await cursor.execute("PRAGMA synchronous = NORMAL")
-                        await cursor.execute("PRAGMA temp_store = MEMORY")
-                        await cursor.execute("PRAGMA foreign_keys = ON")
-                        await cursor.execute(f"PRAGMA mmap_size = {self.mmap_size}")
-                        await cursor.executescript(
-                            files(__package__)
-                            .joinpath("schemas")
-                            .joinpath("sqlite.sql")
-                            .read_text("utf-8")
-                        )
-                connection.row_factory = aiosqlite.Row
-                self._connection = connection
-                self._opening.set()
+                self._opening = opening = asyncio.Event()
+                try:
+                    connection = await aiosqlite.connect(
+                        database=self.connection, timeout=self.timeout
+                    )
+                    try:
+                        if self.init_db:
+                            async with connection.cursor() as cursor:
+                                await cursor.execute("PRAGMA journal_mode = WAL")
+                                await cursor.execute("PRAGMA synchronous = NORMAL")
+                                await cursor.execute("PRAGMA temp_store = MEMORY")
+                                await cursor.execute("PRAGMA foreign_keys = ON")
+                                await cursor.execute(
+                                    f"PRAGMA mmap_size = {self.mmap_size}"
+                                )
+                                await cursor.executescript(
+                                    files(__package__)
+                                    .joinpath("schemas")
+                                    .joinpath("sqlite.sql")
+                                    .read_text("utf-8")
+                                )
+                    except BaseException:
+                        await connection.close()
+                        raise
+                    connection.row_factory = aiosqlite.Row
+                    self._connection = connection
+                finally:
+                    self._opening = None
+                    opening.set()
             else:
                 await self._opening.wait()
         return self._connection
